@@ -40,6 +40,10 @@ type streamableHTTPClientTransport struct {
 	// Custom HTTP headers to be added to all requests
 	httpHeaders http.Header
 
+	// stateMu guards sessionID, lastEventID, enableGetSSE and isStateless, which are
+	// read and written by concurrent calls and by the GET SSE goroutine.
+	stateMu sync.RWMutex
+
 	// Session ID
 	sessionID string
 
@@ -254,15 +258,15 @@ func (t *streamableHTTPClientTransport) send(
 	// Set request headers - accept both SSE and JSON responses
 	httpReq.Header.Set(httputil.ContentTypeHeader, httputil.ContentTypeJSON)
 	httpReq.Header.Set(httputil.AcceptHeader, httputil.ContentTypeJSON+", "+httputil.ContentTypeSSE)
-	if t.sessionID != "" && !t.isStateless {
-		httpReq.Header.Set(httputil.SessionIDHeader, t.sessionID)
+	if sessionID := t.getSessionID(); sessionID != "" && !t.isStatelessMode() {
+		httpReq.Header.Set(httputil.SessionIDHeader, sessionID)
 	}
 
 	// If lastEventID is provided, attach it to the request
 	if options != nil && options.lastEventID != "" {
 		httpReq.Header.Set(httputil.LastEventIDHeader, options.lastEventID)
-	} else if t.lastEventID != "" {
-		httpReq.Header.Set(httputil.LastEventIDHeader, t.lastEventID)
+	} else if lastEventID := t.getLastEventID(); lastEventID != "" {
+		httpReq.Header.Set(httputil.LastEventIDHeader, lastEventID)
 	}
 
 	// Add custom headers
@@ -288,11 +292,10 @@ func (t *streamableHTTPClientTransport) send(
 	// Handle session ID
 	if sessionID := httpResp.Header.Get(httputil.SessionIDHeader); sessionID != "" {
 		t.setSessionID(sessionID)
-		t.isStateless = false
-	} else if req.Method == MethodInitialize && !t.isStateless {
+		t.setStateless(false)
+	} else if req.Method == MethodInitialize && !t.isStatelessMode() {
 		// If this is an initialize request and no session ID was received, auto-detect as stateless mode
-		t.isStateless = true
-		t.enableGetSSE = false // Disable GET SSE in stateless mode
+		t.setStateless(true) // Also disables GET SSE in stateless mode
 	}
 
 	// Check content type
@@ -467,7 +470,7 @@ func (t *streamableHTTPClientTransport) handleSSEResponse(
 
 			// Process event ID
 			if strings.HasPrefix(line, "id:") {
-				t.lastEventID = strings.TrimSpace(strings.TrimPrefix(line, "id:"))
+				t.setLastEventID(strings.TrimSpace(strings.TrimPrefix(line, "id:")))
 				continue
 			}
 
@@ -526,8 +529,8 @@ func (t *streamableHTTPClientTransport) sendNotification(ctx context.Context, no
 	// Set request headers - must accept both JSON and SSE responses per MCP specification.
 	httpReq.Header.Set(httputil.ContentTypeHeader, httputil.ContentTypeJSON)
 	httpReq.Header.Set(httputil.AcceptHeader, httputil.ContentTypeJSON+", "+httputil.ContentTypeSSE)
-	if t.sessionID != "" {
-		httpReq.Header.Set(httputil.SessionIDHeader, t.sessionID)
+	if sessionID := t.getSessionID(); sessionID != "" {
+		httpReq.Header.Set(httputil.SessionIDHeader, sessionID)
 	}
 
 	// Add custom headers
@@ -559,7 +562,7 @@ func (t *streamableHTTPClientTransport) sendNotification(ctx context.Context, no
 
 	// Handle session ID
 	if sessionID := httpResp.Header.Get(httputil.SessionIDHeader); sessionID != "" {
-		t.sessionID = sessionID
+		t.setSessionID(sessionID)
 	}
 
 	// Check status code
@@ -602,12 +605,47 @@ func (t *streamableHTTPClientTransport) close() error {
 
 // GetSessionID gets the session ID
 func (t *streamableHTTPClientTransport) getSessionID() string {
+	t.stateMu.RLock()
+	defer t.stateMu.RUnlock()
 	return t.sessionID
 }
 
 // SetSessionID sets the session ID
 func (t *streamableHTTPClientTransport) setSessionID(sessionID string) {
+	t.stateMu.Lock()
+	defer t.stateMu.Unlock()
 	t.sessionID = sessionID
+}
+
+// getLastEventID gets the ID of the last event received.
+func (t *streamableHTTPClientTransport) getLastEventID() string {
+	t.stateMu.RLock()
+	defer t.stateMu.RUnlock()
+	return t.lastEventID
+}
+
+// setLastEventID records the ID of the last event received.
+func (t *streamableHTTPClientTransport) setLastEventID(eventID string) {
+	t.stateMu.Lock()
+	defer t.stateMu.Unlock()
+	t.lastEventID = eventID
+}
+
+// setStateless records the auto-detected mode; stateless mode also disables GET SSE.
+func (t *streamableHTTPClientTransport) setStateless(stateless bool) {
+	t.stateMu.Lock()
+	defer t.stateMu.Unlock()
+	t.isStateless = stateless
+	if stateless {
+		t.enableGetSSE = false
+	}
+}
+
+// getSSEEnabled reports whether GET SSE is enabled.
+func (t *streamableHTTPClientTransport) getSSEEnabled() bool {
+	t.stateMu.RLock()
+	defer t.stateMu.RUnlock()
+	return t.enableGetSSE
 }
 
 // Establish GET SSE connection
@@ -648,7 +686,8 @@ func (t *streamableHTTPClientTransport) establishGetSSE(parentCtx context.Contex
 // Connect to GET SSE endpoint
 func (t *streamableHTTPClientTransport) connectGetSSE(ctx context.Context) error {
 	// Check if there's a session ID
-	if t.sessionID == "" {
+	sessionID := t.getSessionID()
+	if sessionID == "" {
 		return fmt.Errorf("cannot establish GET SSE connection: session ID is empty")
 	}
 
@@ -663,9 +702,9 @@ func (t *streamableHTTPClientTransport) connectGetSSE(ctx context.Context) error
 
 	// Set necessary headers
 	req.Header.Set(httputil.AcceptHeader, httputil.ContentTypeSSE)
-	req.Header.Set(httputil.SessionIDHeader, t.sessionID)
-	if t.lastEventID != "" {
-		req.Header.Set(httputil.LastEventIDHeader, t.lastEventID)
+	req.Header.Set(httputil.SessionIDHeader, sessionID)
+	if lastEventID := t.getLastEventID(); lastEventID != "" {
+		req.Header.Set(httputil.LastEventIDHeader, lastEventID)
 	}
 
 	// Add custom headers
@@ -682,7 +721,7 @@ func (t *streamableHTTPClientTransport) connectGetSSE(ctx context.Context) error
 		}
 	}
 
-	t.logger.Debugf("Attempting to establish GET SSE connection, session ID: %s", t.sessionID)
+	t.logger.Debugf("Attempting to establish GET SSE connection, session ID: %s", sessionID)
 
 	// Send request
 	resp, err := t.httpReqHandler.Handle(ctx, t.httpClient, req)
@@ -702,7 +741,7 @@ func (t *streamableHTTPClientTransport) connectGetSSE(ctx context.Context) error
 	}
 
 	// Handle response
-	t.logger.Debugf("GET SSE connection established, session ID: %s", t.sessionID)
+	t.logger.Debugf("GET SSE connection established, session ID: %s", sessionID)
 
 	// Handle SSE event stream
 	return t.handleGetSSEEvents(ctx, resp.Body)
@@ -737,7 +776,7 @@ func (t *streamableHTTPClientTransport) handleGetSSEEvents(ctx context.Context, 
 			if strings.HasPrefix(line, "id:") {
 				eventID = strings.TrimPrefix(line, "id:")
 				eventID = strings.TrimSpace(eventID)
-				t.lastEventID = eventID
+				t.setLastEventID(eventID)
 			} else if strings.HasPrefix(line, "data:") {
 				data := strings.TrimPrefix(line, "data:")
 				data = strings.TrimSpace(data)
@@ -756,7 +795,7 @@ func (t *streamableHTTPClientTransport) handleGetSSEEvents(ctx context.Context, 
 // Process SSE event.
 func (t *streamableHTTPClientTransport) processSSEEvent(eventID, eventData string) {
 	// Store the last event ID for connection recovery.
-	t.lastEventID = eventID
+	t.setLastEventID(eventID)
 
 	// Skip empty events.
 	if eventData == "" {
@@ -895,8 +934,8 @@ func (t *streamableHTTPClientTransport) sendResponseToServer(response interface{
 	}
 
 	// Add session ID if available
-	if t.sessionID != "" {
-		httpReq.Header.Set(httputil.SessionIDHeader, t.sessionID) // Use correct MCP protocol header: Mcp-Session-Id.
+	if sessionID := t.getSessionID(); sessionID != "" {
+		httpReq.Header.Set(httputil.SessionIDHeader, sessionID) // Use correct MCP protocol header: Mcp-Session-Id.
 	}
 
 	// Same customisation as every other request: configured path and before-request function.
@@ -942,8 +981,8 @@ func (t *streamableHTTPClientTransport) terminateSession(ctx context.Context) er
 	}
 
 	// Set session ID header
-	if t.sessionID != "" {
-		httpReq.Header.Set(httputil.SessionIDHeader, t.sessionID)
+	if sessionID := t.getSessionID(); sessionID != "" {
+		httpReq.Header.Set(httputil.SessionIDHeader, sessionID)
 	} else {
 		return fmt.Errorf("no active session")
 	}
@@ -977,7 +1016,7 @@ func (t *streamableHTTPClientTransport) terminateSession(ctx context.Context) er
 	}
 
 	// Session successfully terminated, clear session ID
-	t.sessionID = ""
+	t.setSessionID("")
 
 	return nil
 }
@@ -991,6 +1030,8 @@ func (t *streamableHTTPClientTransport) terminateSession(ctx context.Context) er
 // If it returns true, the client is currently running in stateless mode and will not include
 // a session ID in requests or attempt to establish GET SSE connections.
 func (t *streamableHTTPClientTransport) isStatelessMode() bool {
+	t.stateMu.RLock()
+	defer t.stateMu.RUnlock()
 	return t.isStateless
 }
 
@@ -1005,12 +1046,12 @@ func (t *streamableHTTPClientTransport) sendRequestWithStream(
 
 // establishGetSSEConnection attempts to establish a GET SSE connection if enabled
 func (t *streamableHTTPClientTransport) establishGetSSEConnection(ctx context.Context) {
-	if !t.enableGetSSE {
+	if !t.getSSEEnabled() {
 		t.logger.Debug("GET SSE is not enabled, will not establish GET SSE connection")
 		return
 	}
 
-	if t.sessionID == "" {
+	if t.getSessionID() == "" {
 		t.logger.Debug("Session ID is empty, cannot establish GET SSE connection")
 		return
 	}
